@@ -859,9 +859,9 @@ class Evaluator:
             rest = tuple(given.get(p_, Sym(p_)) for p_ in fi.params()[1:])
             outs_d: List[Outcome] = []
             neg: Tuple[Guard, ...] = ()
-            order = sorted(regs, key=lambda kc: -len(kc[0].mro()))
+            order = sorted(regs, key=lambda kc: -len(kc[0].mro()) if isinstance(kc[0], ClassInfo) else 0)
             for k, impl in order:
-                test = Call(Ext('isinstance'), (x, ClassRef(k.name)))
+                test = Call(Ext('isinstance'), (x, ClassRef(k.name) if isinstance(k, ClassInfo) else k))
                 st_d = _State(dict(base_env or {}), neg + ((test, True),))
                 val = self.apply(FuncRef(impl.key), (x,) + rest, (), st_d, depth)
                 for g_, leaf in alternatives(val):
@@ -1045,6 +1045,11 @@ class Evaluator:
                     r = self.m.resolve_name(fi.module, d.args[0].id)
                     if r and r[0] == 'class':
                         regs.append((r[1], g))
+                    else:
+                        # a class from outside the package (Enum, float, ...): the test names it as it is written
+                        kt = self.expr(d.args[0], _State(), fi.module, None, 0)
+                        if isinstance(kt, Ext):
+                            regs.append((kt, g))
         fi._dispatch_regs = regs
         return regs
 
